@@ -308,7 +308,7 @@ static aligned_t qthread_syncvar_blocker_thread(void *arg)
         case WRITEF: a->retval     = qthread_syncvar_writeF(a->a, a->b); break;
         case FILL: a->retval       = qthread_syncvar_fill(a->a); break;
         case EMPTY: a->retval      = qthread_syncvar_empty(a->a); break;
-        case INCR: a->retval       = qthread_syncvar_incrF(a->a, *(int64_t *)a->b); break;
+        case INCR: *(uint64_t *)a->b = qthread_syncvar_incrF(a->a, *(uint64_t *)a->b); break; /* result goes back through b */
     }
     pthread_mutex_unlock(&(a->lock));
     return 0;
@@ -1481,7 +1481,10 @@ uint64_t API_FUNC qthread_syncvar_incrF(syncvar_t *restrict operand,
     qthread_debug(SYNCVAR_BEHAVIOR, "me(%p), operand(%p), inc(%lu) = %x\n", me,
                   operand, (unsigned long)inc);
     if (!me) {
-        return qthread_syncvar_blocker_func(operand, (void *)&inc, INCR);
+        uint64_t io = inc;             /* in: increment, out: new value (64 bits, retval is an int) */
+
+        qthread_syncvar_blocker_func(operand, (void *)&io, INCR);
+        return io;
     }
     qthread_mwaitc(operand, SYNCFEB_ANY, INT_MAX, &e);
     qassert_ret(e.cf == 0, QTHREAD_TIMEOUT); /* there better not have been a timeout */
